@@ -555,6 +555,11 @@ def gen_import(tier, rng, n):
     out.append({"op": "x_import", "cols": [{"name": "f0", "kind": "fixed", "strlen": 4, "cells": ["é", "日本", "a", "\xff\xfe", ""]}], "crs": 16, "quote": False, "_hand": True})
     out.append({"op": "x_import", "cols": [{"name": "f0", "kind": "indexed", "cells": ["a", "b,c", "", "é"]}, {"name": "f1", "kind": "fixed", "strlen": 2, "cells": ["x", "", "yz", "é"]}],
                 "crs": 16, "quote": True, "_hand": True})
+    # quoted cells whose closing / doubled quote falls on the last byte of a read window (2 * chunk_row_size * columns bytes)
+    for crs in (4, 6):
+        for pad in range(0, 8) if tier != "quick" else range(crs // 4 - 1, 8, 2):
+            out.append({"op": "x_import", "cols": [{"name": "f0", "kind": "indexed", "cells": ["p" * pad, "abc", 'q"r', "de", "", "x"]}], "crs": crs,
+                        "quote": True, "_hand": True})
     for dt, big in (("float32", "1e39"), ("float64", "1e400")):
         out.append({"op": "x_import", "cols": [{"name": "f0", "kind": "float", "dtype": dt, "mode": rng.choice(["strict", "allow_empty", "relaxed"]), "invalid": 0,
                                                 "cells": [big, "-" + big, "1.5", "nan", "5e-324"]}], "crs": rng.choice([4, 1 << 20]), "quote": False, "_hand": True})
